@@ -167,6 +167,10 @@ type bridgeGhost struct {
 	Withdrawn map[string]*wbatch
 	// ObsHeight: reference "observed external height" = height of the last event of the chain that was
 	// applied with a quorum (never what a minority merely claimed).
+	// LagA: validator A's orchestrator is down (it does not vote); the others still reach the quorum
+	LagA bool
+	// RefundedHash: tx hashes whose reported status has been REFUNDED (it is final)
+	RefundedHash map[string]bool
 	ObsHeight map[string]uint64
 	// FakeAt: chain -> event nonce for which the Byzantine validator already cast its far-ahead claim
 	FakeAt map[string]uint64
@@ -215,6 +219,7 @@ type pendingEvent struct {
 	Token string
 	Nonce uint64
 	EvNonce, Height uint64 // event nonce and external height carried by the claim
+	TxHash          string
 }
 
 func cloneBig(m map[string]*big.Int) map[string]*big.Int {
@@ -250,7 +255,7 @@ func (g *bridgeGhost) Clone() Ghost {
 	n := &bridgeGhost{EvNonce: cloneU(g.EvNonce), ExtHeight: cloneU(g.ExtHeight), Custody: cloneBig(g.Custody), LastExec: cloneU(g.LastExec),
 		Xfers: map[string]*xfer{}, ExecUnobs: append([]extBatch(nil), g.ExecUnobs...), BatchSeen: cloneB(g.BatchSeen), BatchSeq: cloneU(g.BatchSeq),
 		LastBatchNonce: cloneU(g.LastBatchNonce), LastSeq: cloneU(g.LastSeq), Pending: append([]pendingEvent(nil), g.Pending...),
-		Debt: cloneS(g.Debt), TimedOutOK: cloneB(g.TimedOutOK), Withdrawn: cloneW(g.Withdrawn), ObsHeight: cloneU(g.ObsHeight), FakeAt: cloneU(g.FakeAt)}
+		Debt: cloneS(g.Debt), TimedOutOK: cloneB(g.TimedOutOK), Withdrawn: cloneW(g.Withdrawn), ObsHeight: cloneU(g.ObsHeight), FakeAt: cloneU(g.FakeAt), RefundedHash: cloneB(g.RefundedHash), LagA: g.LagA}
 	for k, v := range g.Xfers {
 		c := *v
 		n.Xfers[k] = &c
@@ -313,13 +318,13 @@ func (g *bridgeGhost) Canon() string {
 	}
 	sort.Strings(xs)
 	return strings.Join([]string{canonMap(g.EvNonce), canonMap(g.ExtHeight), canonMap(g.Custody), canonMap(g.LastExec),
-		strings.Join(xs, ";"), fmt.Sprint(g.ExecUnobs), fmt.Sprint(g.Pending), canonMap(g.Debt), canonMap(g.TimedOutOK), strings.Join(g.withdrawnKeys(), ","), canonMap(g.ObsHeight), canonMap(g.FakeAt)}, "#")
+		strings.Join(xs, ";"), fmt.Sprint(g.ExecUnobs), fmt.Sprint(g.Pending), canonMap(g.Debt), canonMap(g.TimedOutOK), strings.Join(g.withdrawnKeys(), ","), canonMap(g.ObsHeight), canonMap(g.FakeAt), canonMap(g.RefundedHash), fmt.Sprint(g.LagA)}, "#")
 }
 
 func (b *Bridge) NewGhost(in *hub.Instance) Ghost {
 	g := &bridgeGhost{EvNonce: map[string]uint64{}, ExtHeight: map[string]uint64{}, Custody: map[string]*big.Int{}, LastExec: map[string]uint64{},
 		Xfers: map[string]*xfer{}, BatchSeen: map[string]bool{}, BatchSeq: map[string]uint64{}, LastBatchNonce: map[string]uint64{}, LastSeq: map[string]uint64{},
-		Debt: map[string]string{}, TimedOutOK: map[string]bool{}, Withdrawn: map[string]*wbatch{}, ObsHeight: map[string]uint64{}, FakeAt: map[string]uint64{}}
+		Debt: map[string]string{}, TimedOutOK: map[string]bool{}, Withdrawn: map[string]*wbatch{}, ObsHeight: map[string]uint64{}, FakeAt: map[string]uint64{}, RefundedHash: map[string]bool{}}
 	for _, c := range AllExtChains {
 		g.ExtHeight[c] = 1000
 	}
@@ -419,6 +424,10 @@ func (b *Bridge) Ops(s *HState) []engine.Op {
 			}
 		}
 	}
+	if on("Send2") {
+		// two withdrawals in ONE transaction (one tx hash): the lower-fee one and the higher-fee one
+		ops = append(ops, engine.OpN("Send2", c.SendChains[0], c.SendDenoms[0]))
+	}
 	if on("ReqBatch") {
 		for _, ch := range c.SendChains {
 			for _, d := range c.SendDenoms {
@@ -509,8 +518,17 @@ func (b *Bridge) Ops(s *HState) []engine.Op {
 			ops = append(ops, engine.OpN("ExtAdvance", ch))
 		}
 	}
+	if on("ExtAdvanceSmall") {
+		// just beyond the timeout of a batch built now (5760 blocks ahead), not beyond one built after a long idle period
+		ops = append(ops, engine.OpN("ExtAdvance", "ethereum", 5770))
+	}
 	if on("NextTimeout") {
 		ops = append(ops, engine.OpN("Next", c.Timeout+1))
+	}
+	if on("Idle") {
+		// a long quiet period: 20000 hub blocks pass (the hub's PROJECTION of the external height moves far
+		// beyond every batch timeout, the observed height does not move at all)
+		ops = append(ops, engine.OpN("Next", 5, 20000))
 	}
 	if on("NextAtTimeout") {
 		ops = append(ops, engine.OpN("Next", c.Timeout), engine.OpN("Next", c.Timeout-5))
@@ -523,6 +541,14 @@ func (b *Bridge) Ops(s *HState) []engine.Op {
 	}
 	if on("Holders") {
 		ops = append(ops, engine.OpN("Holders"))
+	}
+	if on("Lag") {
+		ops = append(ops, engine.OpN("Lag"))
+	}
+	if on("Rotate") {
+		for k := 1; k <= 3; k++ {
+			ops = append(ops, engine.OpN("Rotate", k))
+		}
 	}
 	if on("ColdStorage") {
 		for _, ch := range c.SendChains {
@@ -568,6 +594,9 @@ func (b *Bridge) observe(in *hub.Instance, chain string, ev mhubtypes.ExternalEv
 		if b.Cfg.Powers[i] == 0 {
 			continue
 		}
+		if i == 0 && st.Counters["__lagA"] > 0 {
+			continue // A's orchestrator is down
+		}
 		r := in.DeliverMsg(hub.EventMsg(v.Orch, chain, ev))
 		if !r.OK() {
 			ok = false
@@ -582,12 +611,22 @@ func (b *Bridge) Do(in *hub.Instance, gg Ghost, op engine.Op, st *engine.Step) {
 	preBal := b.balances(in)
 	ctx := in.Ctx()
 	_ = ctx
+	if g.LagA {
+		st.Count("__lagA", 1)
+		defer func() { delete(st.Counters, "__lagA") }()
+	}
 	switch op.Kind {
 	case "Next":
-		b.doNext(in, g, op.I[0], pre, preBal, st)
+		skip := int64(0)
+		if len(op.I) > 1 {
+			skip = op.I[1]
+		}
+		b.doNext(in, g, op.I[0], skip, pre, preBal, st)
 		return
 	case "Send":
 		b.doSend(in, g, op, pre, preBal, st)
+	case "Send2":
+		b.doSend2(in, g, op, st)
 	case "Cancel":
 		b.doCancel(in, g, op, pre, preBal, st)
 	case "ReqBatch":
@@ -616,7 +655,11 @@ func (b *Bridge) Do(in *hub.Instance, gg Ghost, op engine.Op, st *engine.Step) {
 		st.Obs = fmt.Sprint(r.OK())
 	case "ExtAdvance":
 		// the external chain moves far ahead (beyond every batch timeout created so far)
-		g.ExtHeight[op.S[0]] += 1_000_000
+		if len(op.I) > 0 {
+			g.ExtHeight[op.S[0]] += uint64(op.I[0])
+		} else {
+			g.ExtHeight[op.S[0]] += 1_000_000
+		}
 		st.Obs = "adv"
 	case "Confirm":
 		// validator op.I[0] confirms the latest signer set tx of the chain
@@ -637,6 +680,19 @@ func (b *Bridge) Do(in *hub.Instance, gg Ghost, op engine.Op, st *engine.Step) {
 			in.DeliverMsg(&oracletypes.MsgPriceClaim{Epoch: epoch, Prices: &oracletypes.Prices{List: pl}, Orchestrator: v.Acc.String()})
 		}
 		st.Obs = "prices"
+	case "Lag":
+		g.LagA = !g.LagA
+		st.Obs = fmt.Sprint(g.LagA)
+	case "Rotate":
+		// validator A re-registers its ethereum keys (new orchestrator account, new external key)
+		k := op.I[0]
+		v := b.Vals[0]
+		seq, _ := in.Acc.GetSequence(in.Ctx(), v.Acc)
+		r := in.DeliverMsg(hub.DelegateKeysMsg(in.Cdc, v, "ethereum", hub.User(fmt.Sprintf("neworch%d", k)), hub.EthKey(fmt.Sprintf("rot%d", k)), seq))
+		st.Obs = fmt.Sprint(r.OK())
+		if r.OK() {
+			st.Count("key_rotations", 1)
+		}
 	case "Holders":
 		epoch := in.Oracle.GetCurrentEpoch(in.Ctx())
 		for _, v := range b.Vals {
@@ -702,6 +758,36 @@ func (b *Bridge) doSend(in *hub.Instance, g *bridgeGhost, op engine.Op, pre *vie
 		Where: "pool", Created: in.Time}
 }
 
+// doSend2: one transaction with two MsgSendToExternal (they share the tx hash under which status is kept).
+func (b *Bridge) doSend2(in *hub.Instance, g *bridgeGhost, op engine.Op, st *engine.Step) {
+	ch, d := op.S[0], op.S[1]
+	amt := b.Cfg.Amounts[0]
+	f1, f2 := b.Cfg.Fees[0], b.Cfg.Fees[len(b.Cfg.Fees)-1]+1
+	rcpt := hub.HexAddr("rcpt0")
+	before := map[uint64]bool{}
+	for _, e := range b.view(in).Pool[ch] {
+		before[e.Id] = true
+	}
+	r := in.DeliverMsgs(mhubtypes.NewMsgSendToExternal(mhubtypes.ChainID(ch), b.Usr[0], rcpt, sdk.NewInt64Coin(d, amt), sdk.NewInt64Coin(d, f1)),
+		mhubtypes.NewMsgSendToExternal(mhubtypes.ChainID(ch), b.Usr[0], rcpt, sdk.NewInt64Coin(d, amt), sdk.NewInt64Coin(d, f2)))
+	st.Obs = fmt.Sprint(r.OK())
+	if !r.OK() {
+		return
+	}
+	st.Count("sends_ok", 2)
+	for _, e := range b.view(in).Pool[ch] {
+		if before[e.Id] {
+			continue
+		}
+		fee := f1
+		if e.Fee.Amount.Equal(refConvert(sdk.NewInt(f2), 18, b.token(ch, d).Dec)) {
+			fee = f2
+		}
+		g.Xfers[fmt.Sprintf("%s/%d", ch, e.Id)] = &xfer{Chain: ch, ID: e.Id, Sender: b.Usr[0].String(), TxHash: r.TxHash, Denom: d, Taken: sdk.NewInt(amt + fee).String(),
+			Amt: e.Token.Amount.String(), Fee: e.Fee.Amount.String(), Com: e.ValCommission.Amount.String(), Origin: "hub", OriginAddr: b.Usr[0].String(), Where: "pool", Created: in.Time}
+	}
+}
+
 func (b *Bridge) doCancel(in *hub.Instance, g *bridgeGhost, op engine.Op, pre *view, preBal map[string]sdk.Coins, st *engine.Step) {
 	ch := op.S[0]
 	u, id := op.I[0], uint64(op.I[1])
@@ -745,7 +831,7 @@ func (b *Bridge) doDeposit(in *hub.Instance, g *bridgeGhost, op engine.Op, st *e
 	} else {
 		ev = &mhubtypes.TransferToChainEvent{EventNonce: g.EvNonce[ch], ExternalCoinId: t.ExtID, Amount: sdk.NewInt(amt), Fee: sdk.NewInt(fee), Sender: sender,
 			ReceiverChainId: dest, ExternalReceiver: hub.HexAddr("xrcpt"), ExternalHeight: g.ExtHeight[ch], TxHash: txh}
-		g.Pending = append(g.Pending, pendingEvent{Chain: ch, Kind: "dep-chain", Denom: d, Locked: locked, Recv: dest, EvNonce: g.EvNonce[ch], Height: g.ExtHeight[ch]})
+		g.Pending = append(g.Pending, pendingEvent{Chain: ch, Kind: "dep-chain", Denom: d, Locked: locked, Recv: dest, EvNonce: g.EvNonce[ch], Height: g.ExtHeight[ch], TxHash: txh})
 	}
 	if !b.observe(in, ch, ev, st) {
 		st.Count("claims_rejected", 1)
@@ -851,7 +937,7 @@ func (b *Bridge) doExecOld(in *hub.Instance, g *bridgeGhost, op engine.Op, st *e
 	st.Obs = "exec-old"
 }
 
-func (b *Bridge) doNext(in *hub.Instance, g *bridgeGhost, dt int64, pre *view, preBal map[string]sdk.Coins, st *engine.Step) {
+func (b *Bridge) doNext(in *hub.Instance, g *bridgeGhost, dt, skip int64, pre *view, preBal map[string]sdk.Coins, st *engine.Step) {
 	// --- EndBlock of the open block: tally applies pending events, then expiry refunds
 	if p := in.EndBlock(); BlockFailure(st, p) {
 		return
@@ -864,11 +950,16 @@ func (b *Bridge) doNext(in *hub.Instance, g *bridgeGhost, dt int64, pre *view, p
 	// --- BeginBlock of the next block: batch timeouts, automatic batching
 	pre2 := b.view(in)
 	preBal2 := b.balances(in)
+	if skip > 0 {
+		// blocks in which nothing happens (see hub.Instance.IdleBlocks)
+		in.Height += skip
+		in.Time += skip * 5
+	}
 	if p := in.BeginBlock(dt); BlockFailure(st, p) {
 		return
 	}
 	b.after(in, g, engine.OpN("BeginBlock"), pre2, preBal2, st, false)
-	st.Obs = fmt.Sprintf("next%d", dt)
+	st.Obs = fmt.Sprintf("next%d+%d", dt, skip)
 }
 
 // ---------------------------------------------------------------------------------------------
@@ -915,7 +1006,7 @@ func bridgeCfgFor(prop, tier string) (BridgeCfg, engine.Config) {
 	}
 	switch prop {
 	case "C04":
-		cfg.Ops = opsSet("Next", "Send", "Cancel", "ReqBatch", "Exec", "Deposit", "ExtAdvance", "NextTimeout")
+		cfg.Ops = opsSet("Next", "Send", "Send2", "Cancel", "ReqBatch", "Exec", "Deposit", "ExtAdvance", "NextTimeout")
 		cfg.Seeds = [][]engine.Op{{}, seedObserved, seedRefundBatched, seedTwoTokenBatches}
 	case "C10":
 		cfg.Ops = opsSet("Next", "Send", "ReqBatch")
@@ -927,7 +1018,10 @@ func bridgeCfgFor(prop, tier string) (BridgeCfg, engine.Config) {
 		}
 	case "C12":
 		cfg.Ops = opsSet("Next", "Send", "Cancel", "CancelWrongChain", "ReqBatch", "Deposit", "NextTimeout", "NextAtTimeout", "ExtAdvance")
-		cfg.Seeds = [][]engine.Op{{}, seedRefundBatched}
+		// third seed: the module-created refund transfer (no refund destination) and a user's transfer of a smaller
+		// token id sit in two ethereum batches whose timeout the external chain has passed (not yet observed)
+		cfg.Seeds = [][]engine.Op{{}, seedRefundBatched, append(append([]engine.Op{}, seedRefundBatched...),
+			engine.OpN("Send", "ethereum", "eth", 0, 0, 0), engine.OpN("Next", 5), engine.OpN("Next", 5), engine.OpN("ExtAdvance", "ethereum"))}
 		cfg.Users = 2
 		cfg.Fees = []int64{7}
 		cfg.SendDenoms = []string{"hub"}
@@ -950,7 +1044,7 @@ func bridgeCfgFor(prop, tier string) (BridgeCfg, engine.Config) {
 		cfg.DepDests = []string{"hub", "minter"}
 		cfg.Seeds = [][]engine.Op{{}, seedObserved}
 	case "C01":
-		cfg.Ops = opsSet("Next", "Send", "Cancel", "ReqBatch", "Exec", "Deposit", "ExtAdvance", "NextTimeout", "ColdStorage")
+		cfg.Ops = opsSet("Next", "Send", "Cancel", "ReqBatch", "Exec", "Deposit", "ExtAdvance", "NextTimeout", "ColdStorage", "Idle")
 		cfg.DepDests = []string{"hub", "minter", "ethereum"}
 		cfg.DepChains = []string{"ethereum", "minter"}
 		cfg.DepFees = []int64{0, 3}
@@ -991,12 +1085,22 @@ func init() {
 	}))
 	Register("C13", MultiRunner(func(tier string) ([]MultiCase, []string) {
 		cfg, ec := bridgeCfgFor("C13", tier)
-		a, bb := cfg, cfg
+		a, bb, cc := cfg, cfg, cfg
 		a.Seeds = [][]engine.Op{seedObserved}
 		bb.Seeds = [][]engine.Op{seedTwoTokenBatches}
+		bb.Ops = opsSet("Next", "Send", "ReqBatch", "Exec", "Deposit", "ExtAdvance", "FakeHeight", "Idle")
 		ecb := ec
 		ecb.Deadline = ec.Deadline / 2
-		return []MultiCase{{Name: "from observed heights", Spec: NewBridge(a), Cfg: ec}, {Name: "from two pending batches of different tokens on ethereum", Spec: NewBridge(bb), Cfg: ecb}}, bridgeAssumptions(cfg)
+		// timeouts that are not monotone in the batch nonce: batch 1 built after a long quiet period (its timeout sits on
+		// the hub's projection of the external height), then a real, lower height is observed and batch 2 gets an EARLIER timeout
+		cc.Seeds = [][]engine.Op{{engine.OpN("Deposit", "ethereum", "hub", "hub", 0, 0), engine.OpN("Next", 5), engine.OpN("Next", 5, 20000),
+			engine.OpN("Send", "ethereum", "hub", 0, 0, 0), engine.OpN("ReqBatch", "ethereum", "hub"), engine.OpN("Deposit", "ethereum", "hub", "hub", 0, 0), engine.OpN("Next", 5),
+			engine.OpN("Send", "ethereum", "hub", 0, 0, 0), engine.OpN("ReqBatch", "ethereum", "hub")}}
+		cc.Ops = opsSet("Next", "Exec", "Deposit", "ExtAdvance", "ExtAdvanceSmall")
+		cc.SendChains = []string{"ethereum"}
+		cc.DepChains = []string{"ethereum"}
+		return []MultiCase{{Name: "from observed heights", Spec: NewBridge(a), Cfg: ec}, {Name: "from two pending batches of different tokens on ethereum", Spec: NewBridge(bb), Cfg: ecb},
+			{Name: "from two batches of one token whose timeouts are not monotone", Spec: NewBridge(cc), Cfg: ecb}}, bridgeAssumptions(cfg)
 	}))
 	Register("C15", MultiRunner(func(tier string) ([]MultiCase, []string) {
 		cfg, ec := bridgeCfgFor("C15", tier)
@@ -1008,20 +1112,13 @@ func init() {
 		ech := ec
 		ech.MaxDepth = 3
 		ech.Deadline = ec.Deadline / 3
-		return []MultiCase{{Name: "bridge histories, oracle prices from genesis", Spec: NewBridge(cfg), Cfg: ec}, {Name: "holders adopted, no prices", Spec: NewBridge(ho), Cfg: ech}}, bridgeAssumptions(cfg)
-	}))
-	Register("C10", MultiRunner(func(tier string) ([]MultiCase, []string) {
-		cfg, ec := bridgeCfgFor("C10", tier)
-		// batches that time out and are rebuilt: nonces must stay unique and gap-free across cancellations
-		to := cfg
-		to.Ops = opsSet("Next", "Send", "ReqBatch", "Deposit", "ExtAdvance")
-		to.Fees = []int64{7}
-		to.SendChains = []string{"ethereum"}
-		to.DepChains = []string{"ethereum"}
-		to.Seeds = [][]engine.Op{append(append([]engine.Op{}, seedObserved...), engine.OpN("Send", "ethereum", "hub", 0, 0, 0), engine.OpN("ReqBatch", "ethereum", "hub"))}
-		ect := ec
-		ect.Deadline = ec.Deadline / 2
-		return []MultiCase{{Name: "pools and permissionless requests", Spec: NewBridge(cfg), Cfg: ec}, {Name: "batches timing out and being rebuilt", Spec: NewBridge(to), Cfg: ect}}, bridgeAssumptions(cfg)
+		// a lagging validator (its last claimed nonce behind the observed one) and rotated delegate keys
+		lr := cfg
+		lr.Ops = opsSet("Next", "Deposit", "Lag", "Rotate")
+		lr.DepDests = []string{"hub"}
+		lr.Seeds = [][]engine.Op{{engine.OpN("Deposit", "ethereum", "hub", "hub", 0, 0), engine.OpN("Next", 5)}}
+		return []MultiCase{{Name: "bridge histories, oracle prices from genesis", Spec: NewBridge(cfg), Cfg: ec}, {Name: "holders adopted, no prices", Spec: NewBridge(ho), Cfg: ech},
+			{Name: "a lagging validator, rotated delegate keys", Spec: NewBridge(lr), Cfg: ec}}, bridgeAssumptions(cfg)
 	}))
 	for _, p := range []string{"C04", "C12"} {
 		prop := p
